@@ -1,5 +1,5 @@
 SPECIFICATION Spec
 CONSTANTS Mode = "proto"  MaxBudget = 3  BiCGInitialCheck = TRUE  DiagLo = 2  DiagHi = 2  MaxOff = 0  MaxB = 0  Emit = FALSE
-INVARIANTS TypeOK OkMeansPassedInv BudgetZeroUntouchedInv ExactStartInv BoundedInv PrefixClosed
+INVARIANTS TypeOK OkMeansPassedInv BudgetZeroUntouchedInv ExactStartInv BoundedInv PrefixClosed BudgetLadder
 PROPERTIES Variant Termination
 CHECK_DEADLOCK FALSE
